@@ -540,7 +540,35 @@ class CallMixin:
         return T.sv_map(et, fx.ty, dom, val)
 
     def ev_SetComp(self, e, p):
-        raise Unsupported("set comprehension in code")
+        if not self.spec_mode:
+            raise Unsupported("set comprehension in code")
+        # specification only: {x for x in DOM if cond}  (the element must be the bound variable)
+        target, it, ifs = self._comp_parts(e)
+        if not (isinstance(e.elt, ast.Name) and isinstance(target, ast.Name) and e.elt.id == target.id):
+            raise Unsupported("set comprehension whose element is not the bound variable")
+        dom = self.ev(it, p)
+        ety = dom.ty.k if isinstance(dom.ty, T.Map) else T.INT if dom.ty == T.TUP else dom.ty.e
+        x = fresh("sc_" + target.id, ety.sort())
+        xv = T.scalar(ety, x)
+        saved = dict(p.env)
+        p.env[target.id] = xv
+        p.env["__bv_" + target.id] = xv
+        try:
+            conds = [self.member(xv, dom, p)] + [self.truth(self.ev(c, p), p) for c in ifs]
+        finally:
+            p.env.clear()
+            p.env.update(saved)
+        st = T.Set(ety)
+        bvs = list(self.bound_vars)
+        if bvs:
+            # inside a quantifier the set depends on the bound variables: Skolem function of them
+            fn = z3.Function(f"setcomp!{next(T._fresh)}", *[v.sort() for v in bvs], st.sort())
+            s = fn(*bvs)
+            p.assume(z3.ForAll(bvs + [x], s[x] == z3.And(conds), patterns=[s[x]]))
+        else:
+            s = fresh("setcomp", st.sort())
+            self._assume(p, z3.ForAll([x], s[x] == z3.And(conds), patterns=[s[x]]))
+        return T.scalar(st, s)
 
     def ev_GeneratorExp(self, e, p):
         raise Unsupported("generator expression in code")
